@@ -198,4 +198,191 @@ theorem sortedListing_congr (dirs : List String) (es es' : List Entry) (hp : es.
   · rw [walkKeyed_eq_map, walkKeyed_eq_map]; exact hp.map _
   · rw [walkKeyed_keys]; exact hnd
 
+/-! ### membership: where an annotation comes from -/
+
+theorem FileAt.mono {es es' : List Entry} {ds : List String} {f : File} (hsub : ∀ y ∈ es, y ∈ es')
+    (h : FileAt es ds f) : FileAt es' ds f := by
+  cases h with
+  | here hm => exact .here (hsub _ hm)
+  | under hm hs => exact .under (hsub _ hm) hs
+
+theorem mem_fileAnnotations_iff (ds : List String) (f : File) (e : Redirect) :
+    e ∈ fileAnnotations ds f ↔ isSourceFile f.name = true ∧ ∃ fn doc text, Decl.func fn doc ∈ f.decls ∧
+      text ∈ doc ∧ directiveSrc text = some e.1 ∧ e.2 = qualify ds fn := by
+  unfold fileAnnotations
+  by_cases hs : isSourceFile f.name = true
+  · simp only [hs, if_true, true_and, List.mem_flatMap]
+    constructor
+    · rintro ⟨d, hd, he⟩
+      cases d with
+      | func fn doc =>
+        simp only [declRedirects, docRedirects, List.mem_filterMap, Option.map_eq_some_iff] at he
+        obtain ⟨text, ht, src, hsrc, rfl⟩ := he
+        exact ⟨fn, doc, text, hd, ht, hsrc, rfl⟩
+      | other doc => simp [declRedirects] at he
+    · rintro ⟨fn, doc, text, hd, ht, hsrc, hq⟩
+      refine ⟨.func fn doc, hd, ?_⟩
+      simp only [declRedirects, docRedirects, List.mem_filterMap, Option.map_eq_some_iff]
+      exact ⟨text, ht, e.1, hsrc, by rw [← hq]⟩
+  · simp [hs]
+
+theorem mem_listAnnotations_of_mem (pfx : List String) (x : Entry) (e : Redirect) :
+    ∀ (es : List Entry), x ∈ es → e ∈ entryAnnotations pfx x → e ∈ listAnnotations pfx es
+  | [], hx, _ => by cases hx
+  | y :: ys, hx, he => by
+    rw [listAnnotations, List.mem_append]
+    rcases List.mem_cons.1 hx with hx | hx
+    · subst hx; exact Or.inl he
+    · exact Or.inr (mem_listAnnotations_of_mem pfx x e ys hx he)
+
+theorem mem_listAnnotations_of_fileAt {es : List Entry} {ds : List String} {f : File} (h : FileAt es ds f) :
+    ∀ (pfx : List String) (e : Redirect), e ∈ fileAnnotations (pfx ++ ds) f → e ∈ listAnnotations pfx es := by
+  induction h with
+  | here hm =>
+    intro pfx e he
+    rw [List.append_nil] at he
+    exact mem_listAnnotations_of_mem pfx _ e _ hm (by rw [entryAnnotations]; exact he)
+  | @under es sub n ds f hm _ ih =>
+    intro pfx e he
+    refine mem_listAnnotations_of_mem pfx _ e _ hm ?_
+    rw [entryAnnotations]
+    apply ih (pfx ++ [n]) e
+    rw [List.append_assoc]
+    exact he
+
+mutual
+theorem fileAt_of_mem_entryAnnotations (pfx : List String) (e : Redirect) : (x : Entry) →
+    e ∈ entryAnnotations pfx x → ∃ ds f, FileAt [x] ds f ∧ e ∈ fileAnnotations (pfx ++ ds) f
+  | .file f, he => by
+    rw [entryAnnotations] at he
+    exact ⟨[], f, .here List.mem_cons_self, by rw [List.append_nil]; exact he⟩
+  | .dir n sub, he => by
+    rw [entryAnnotations] at he
+    obtain ⟨ds, f, hf, hm⟩ := fileAt_of_mem_listAnnotations (pfx ++ [n]) e sub he
+    refine ⟨n :: ds, f, .under List.mem_cons_self hf, ?_⟩
+    rw [List.append_assoc] at hm
+    exact hm
+theorem fileAt_of_mem_listAnnotations (pfx : List String) (e : Redirect) : (es : List Entry) →
+    e ∈ listAnnotations pfx es → ∃ ds f, FileAt es ds f ∧ e ∈ fileAnnotations (pfx ++ ds) f
+  | [], he => by simp [listAnnotations] at he
+  | x :: xs, he => by
+    rw [listAnnotations, List.mem_append] at he
+    rcases he with he | he
+    · obtain ⟨ds, f, hf, hm⟩ := fileAt_of_mem_entryAnnotations pfx e x he
+      exact ⟨ds, f, hf.mono (fun y hy => by
+        rw [List.mem_singleton.1 hy]; exact List.mem_cons_self), hm⟩
+    · obtain ⟨ds, f, hf, hm⟩ := fileAt_of_mem_listAnnotations pfx e xs he
+      exact ⟨ds, f, hf.mono (fun y hy => List.mem_cons_of_mem _ hy), hm⟩
+end
+
+theorem mem_annotations_iff (t : Tree) (e : Redirect) :
+    e ∈ annotations t ↔ ∃ ds f, FileAt t ds f ∧ e ∈ fileAnnotations ds f := by
+  unfold annotations
+  constructor
+  · intro he
+    obtain ⟨ds, f, hf, hm⟩ := fileAt_of_mem_listAnnotations [] e t he
+    exact ⟨ds, f, hf, by simpa using hm⟩
+  · rintro ⟨ds, f, hf, hm⟩
+    exact mem_listAnnotations_of_fileAt hf [] e (by simpa using hm)
+
+/-! ### stripping commutes with the walk (ordered version) -/
+
+theorem insertByName_mapVal {α β : Type} (g : α → β) (x : String × α) (l : List (String × α)) :
+    insertByName (x.1, g x.2) (l.map fun y => (y.1, g y.2)) = (insertByName x l).map fun y => (y.1, g y.2) := by
+  induction l with
+  | nil => rfl
+  | cons y ys ih =>
+    simp only [List.map_cons, insertByName]
+    split
+    · rw [ih]; rfl
+    · rfl
+
+theorem sortByName_mapVal {α β : Type} (g : α → β) (l : List (String × α)) :
+    sortByName (l.map fun y => (y.1, g y.2)) = (sortByName l).map fun y => (y.1, g y.2) := by
+  induction l with
+  | nil => rfl
+  | cons x xs ih =>
+    simp only [List.map_cons, sortByName]
+    rw [ih, insertByName_mapVal]
+
+theorem Entry.strip_name (e : Entry) : e.strip.name = e.name := by
+  cases e with
+  | file f => simp only [Entry.strip, Entry.name, File.strip]; split <;> rfl
+  | dir n es => simp [Entry.strip, Entry.name]
+
+theorem File.strip_name (f : File) : f.strip.name = f.name := by
+  unfold File.strip; split <;> rfl
+
+/-- strip the file of a collected path -/
+def stripPath (x : List String × File) : List String × File := (x.1, x.2.strip)
+
+mutual
+theorem walkEntry_strip (dirs : List String) : (e : Entry) →
+    walkEntry dirs e.strip = (walkEntry dirs e).map stripPath
+  | .file f => by
+    simp only [Entry.strip, walkEntry, File.strip_name]
+    split <;> simp [stripPath]
+  | .dir n es => by
+    simp only [Entry.strip, walkEntry]
+    rw [walkKeyed_strip (dirs ++ [n]) es, sortByName_mapVal, List.flatMap_map, List.map_flatMap]
+theorem walkKeyed_strip (dirs : List String) : (es : List Entry) →
+    walkKeyed dirs (stripList es) = (walkKeyed dirs es).map fun k => (k.1, k.2.map stripPath)
+  | [] => by simp [stripList, walkKeyed]
+  | e :: es => by
+    simp only [stripList, walkKeyed, List.map_cons]
+    rw [walkEntry_strip dirs e, walkKeyed_strip dirs es, Entry.strip_name]
+end
+
+theorem sourceFiles_strip (t : Tree) : sourceFiles (stripList t) = (sourceFiles t).map stripPath := by
+  unfold sourceFiles
+  rw [walkKeyed_strip [] t, sortByName_mapVal, List.flatMap_map, List.map_flatMap]
+
+mutual
+theorem walkEntry_source (dirs : List String) : (e : Entry) →
+    ∀ x ∈ walkEntry dirs e, isSourceFile x.2.name = true
+  | .file f, x, hx => by
+    unfold walkEntry at hx
+    split at hx
+    · rw [List.mem_singleton.1 hx]; assumption
+    · cases hx
+  | .dir n es, x, hx => by
+    unfold walkEntry at hx
+    obtain ⟨k, hk, hxk⟩ := List.mem_flatMap.1 hx
+    exact walkKeyed_source (dirs ++ [n]) es k ((sortByName_perm _).mem_iff.1 hk) x hxk
+theorem walkKeyed_source (dirs : List String) : (es : List Entry) →
+    ∀ k ∈ walkKeyed dirs es, ∀ x ∈ k.2, isSourceFile x.2.name = true
+  | [], k, hk, _, _ => by simp [walkKeyed] at hk
+  | e :: es, k, hk, x, hx => by
+    unfold walkKeyed at hk
+    rcases List.mem_cons.1 hk with hk | hk
+    · subst hk; exact walkEntry_source dirs e x hx
+    · exact walkKeyed_source dirs es k hk x hx
+end
+
+theorem sourceFiles_source (t : Tree) : ∀ x ∈ sourceFiles t, isSourceFile x.2.name = true := by
+  intro x hx
+  unfold sourceFiles at hx
+  obtain ⟨k, hk, hxk⟩ := List.mem_flatMap.1 hx
+  exact walkKeyed_source [] t k ((sortByName_perm _).mem_iff.1 hk) x hxk
+
+theorem flatMap_congr_mem {α β : Type} (f g : α → List β) :
+    ∀ (l : List α), (∀ x ∈ l, f x = g x) → l.flatMap f = l.flatMap g
+  | [], _ => rfl
+  | x :: xs, h => by
+    rw [List.flatMap_cons, List.flatMap_cons, h x List.mem_cons_self,
+      flatMap_congr_mem f g xs fun y hy => h y (List.mem_cons_of_mem _ hy)]
+
+theorem fileRedirects_strip (x : List String × File) (hs : isSourceFile x.2.name = true) :
+    fileRedirects (stripPath x) = fileRedirects x := by
+  unfold fileRedirects stripPath File.strip
+  simp only [hs, if_true, List.flatMap_map]
+  congr 1
+  funext d
+  exact declRedirects_strip x.1 d
+
+theorem findRedirectsOrd_id_strip (t : Tree) :
+    findRedirectsOrd id (stripList t) = findRedirectsOrd id t := by
+  rw [findRedirectsOrd_id, findRedirectsOrd_id, sourceFiles_strip, List.flatMap_map]
+  exact flatMap_congr_mem _ _ _ fun x hx => fileRedirects_strip x (sourceFiles_source t x hx)
+
 end Firefly.Redirects
